@@ -37,7 +37,7 @@ def strategy(tier, phase):
     from vlib import rmodel
 
     edit = st.tuples(st.integers(0, 13), st.integers(0, 60), st.integers(0, 60), st.integers(0, 60)).map(list)
-    return st.fixed_dictionaries({"tape": rmodel.tape_strategy(), "edits": st.lists(edit, max_size=4), "pass": st.integers(0, len(c05.PASSES) - 1),
+    return st.fixed_dictionaries({"gen": st.just(2), "tape": rmodel.tape_strategy(), "edits": st.lists(edit, max_size=4), "pass": st.integers(0, len(c05.PASSES) - 1),
                                   "param": st.integers(0, 7), "fault": st.sampled_from([0, 0, 0, 1, 2, 3]), "functional": st.booleans()})
 
 
@@ -103,7 +103,7 @@ def execute(case):
     from vlib import universe as U
 
     try:
-        proto, features = rmodel.build(case["tape"])
+        proto, features = rmodel.build(case["tape"], case.get("gen", 1))
         pidx, param, fault = case["pass"], case["param"], case["fault"] % 4
         edits = case["edits"]
     except (KeyError, TypeError):
